@@ -211,7 +211,7 @@ func cmdCheck(args []string) int {
 	}
 	genS := time.Since(start).Seconds() - loadS
 
-	d := &Discharger{dir: scratch, timeoutS: 30, seed: seed, par: 10}
+	d := &Discharger{dir: scratch, timeoutS: 60, seed: seed, par: 10}
 	if *tier == "thorough" {
 		d.timeoutS = 120
 	}
@@ -251,7 +251,9 @@ func report(eng *Engine, cfg *PropConfig, tier string, seed int, verif, repo str
 		n := o.Name
 		if k := strings.Index(n, "#"); k >= 0 {
 			if e := strings.Index(n[k:], "::"); e >= 0 {
-				n = n[:k] + n[k+e:]
+				// the per-case index of a cover differs between cases (other loops are reached): identify
+				// it by kind and description instead
+				return n[:k] + "::" + o.Kind + ":" + o.Note
 			}
 		}
 		return n
